@@ -127,6 +127,28 @@ def run(ctx, shared=True):
     ctx.decide(ok, "C14.config", sp.ident, loc_of(sp, assigns[0] if assigns else W), "sampler_type is updated to the requested sampler before the configuration is written",
                "the sampler type recorded for the configuration is not (yet) the sampler that was built for this run when the configuration is written: "
                "the file names another sampler than the one whose checkpoint it holds", disc="type")
+    # ---- a checkpoint the instance was primed with (resume_from_file) belongs to the flow that was loaded with it: once the run it resumes has been
+    #      handed over, or the flow is refitted, it must not be handed to a later sample_posterior call again
+    PRIMED = "_resume_from_default"
+    drops = []
+    for m_ in A.methods.values():
+        for n_ in walk_no_nested(m_.node):
+            if isinstance(n_, ast.Delete) and any(isinstance(t_, ast.Attribute) and t_.attr == PRIMED for t_ in n_.targets):
+                drops.append(m_.name)
+            if isinstance(n_, ast.Call) and isinstance(n_.func, ast.Name) and n_.func.id == "delattr" and len(n_.args) == 2 and isinstance(n_.args[1], ast.Constant) and n_.args[1].value == PRIMED:
+                drops.append(m_.name)
+            if isinstance(n_, ast.Assign) and any(isinstance(t_, ast.Attribute) and t_.attr == PRIMED for t_ in n_.targets) and isinstance(n_.value, ast.Constant) and n_.value.value is None:
+                drops.append(m_.name)
+            if isinstance(n_, ast.Call) and isinstance(n_.func, ast.Attribute) and n_.func.attr == "pop" and n_.args and isinstance(n_.args[0], ast.Constant) and n_.args[0].value == PRIMED:
+                drops.append(m_.name)
+    primed_somewhere = any(isinstance(n_, ast.Attribute) and n_.attr == PRIMED and isinstance(n_.ctx, ast.Store) for m_ in A.methods.values() for n_ in ast.walk(m_.node))
+    if primed_somewhere:
+        okp = any(d_ in ("fit", "sample_posterior", "init_flow") for d_ in drops)
+        ctx.decide(okp, "C14.fit", A.methods["fit"].ident if "fit" in A.methods else A.ident, loc_of(A.methods.get("fit", sp)),
+                   "the primed checkpoint is dropped when it has been used or when the flow is refitted",
+                   f"an instance built by resume_from_file keeps {PRIMED} for good: neither fit() nor sample_posterior() ever clears it, so after resume -> sample_posterior() -> fit(new data) -> "
+                   "sample_posterior() the second call is handed the old checkpoint as resume_from; the sampler continues the old population while /flow has just been replaced by the "
+                   "refitted flow, and the file pairs that population with a proposal it was not weighted under", disc="primed|0")
     # ---- a sampler that cannot checkpoint: sample_posterior must not swap /flow and /aspire_config under a checkpoint it will not replace
     sup_ifs = [n for n in walk_no_nested(sp.node) if isinstance(n, ast.If) and n.lineno < S.lineno
                and {"checkpoint_file_path", "checkpoint_every"} & {x.value for x in ast.walk(n.test) if isinstance(x, ast.Constant) and isinstance(x.value, str)}
